@@ -280,6 +280,7 @@ func c11r4(c *core.Ctx) {
 }
 
 func c11r5(c *core.Ctx) {
+	permPredicatePolarity(c)
 	p := c.P
 	pk := p.Pkg("characteristic")
 	if pk == nil {
